@@ -1,0 +1,20 @@
+//go:build verif
+
+package proxycore
+
+import "sync/atomic"
+
+// VerifYieldHook, when set by the verification harness, is called at named scheduling points so that a chosen
+// interleaving can be replayed deterministically.
+var verifYieldHook atomic.Value // func(point string)
+
+func VerifSetYieldHook(f func(point string)) { verifYieldHook.Store(f) }
+
+func verifYield(point string) {
+	if f, ok := verifYieldHook.Load().(func(string)); ok && f != nil {
+		f(point)
+	}
+}
+
+// VerifYield lets the proxy package share the same hook.
+func VerifYield(point string) { verifYield(point) }
